@@ -28,7 +28,21 @@ def prime_ctx(master_key, addons=()):
         _mctx.options = cached[0].options
 
 
+_N_WORLDS = 0
+GC_EVERY = 200
+
+
 def world(*a, **kw):
+    """World(...) with ctx priming, plus a full garbage collection every GC_EVERY worlds: World.close_out() runs
+    gc.collect(1) while the World is still referenced, which promotes its (cyclic) object graph to the oldest
+    generation; after dispose() that graph is garbage only a full collection frees.  Left alone a worker's heap grows
+    by ~100 objects per execution and executions slow down four-fold within 10 000 runs (measured)."""
+    global _N_WORLDS
+    _N_WORLDS += 1
+    if _N_WORLDS % GC_EVERY == 0:
+        import gc
+
+        gc.collect()
     prime_ctx(kw.get("master_key"), kw.get("addons") or ())
     return _world.World(*a, **kw)
 
